@@ -15,9 +15,12 @@ import (
 	"io"
 	"os"
 	"os/exec"
+	"path/filepath"
 	"runtime"
+	"sort"
 	"strconv"
 	"strings"
+	"sync"
 	"time"
 
 	"github.com/aead/siphash"
@@ -62,8 +65,9 @@ func (s spec) replay(extra map[string]interface{}) map[string]interface{} {
 }
 
 func trimQ(q [][]byte) interface{} {
-	if len(q) > 40 {
-		return map[string]interface{}{"count": len(q), "first": hexItems(q[:8])}
+	if len(q) > 300 {
+		return map[string]interface{}{"count": len(q), "first": hexItems(q[:4]), "last": hexItems(q[len(q)-4:]),
+			"note": "list too long to print: re-run the family with the recorded seed (bin/check --replay does)"}
 	}
 	return hexItems(q)
 }
@@ -158,22 +162,64 @@ func checkBuilt(s spec, queryLists [][][]byte, corr bool, family string) *gcs.Fi
 	// reference view of the set
 	F := gref.Modulus(uint64(n), s.M)
 	refSet := make(map[uint64]bool, n)
-	for _, d := range s.Data {
-		refSet[gref.Value(s.Key, F, d)] = true
+	refVals := make([]uint64, n)
+	for i, d := range s.Data {
+		refVals[i] = gref.Value(s.Key, F, d)
+		refSet[refVals[i]] = true
 	}
 
 	// --- members: every member matches through all four forms
 	step := 1
 	if n > 150 {
 		step = n / 150
+		if n > 150000 {
+			step = n / 40 // one query decodes the whole filter: fewer evenly spread members, the ranked ones below stay
+		}
 	}
+	memberIdx := []int{}
 	for i := 0; i < n; i += step {
+		memberIdx = append(memberIdx, i)
+	}
+	rankOf := map[int]int{}
+	if n > 150 {
+		// members chosen by their RANK in the sorted stream (position of their codeword), not by their position in
+		// the input: the first and the last codewords (a lost or damaged tail of the bytes only hurts the last
+		// members), and the ranks around every power of two from 2^8 up (a narrow decode counter wraps there),
+		// also relative to the end of the stream (N - 2^k: what a counter of k bits makes of N)
+		order := make([]int, n)
+		for i := range order {
+			order[i] = i
+		}
+		sort.Slice(order, func(a, b int) bool { return refVals[order[a]] < refVals[order[b]] })
+		ranks := []int{0, 1, 2}
+		for k := 1; k <= 12; k++ {
+			ranks = append(ranks, n-k)
+		}
+		for sh := uint(8); sh <= 24; sh++ {
+			for d := -1; d <= 1; d++ {
+				ranks = append(ranks, 1<<sh+d, n%(1<<sh)+d, n-n%(1<<sh)+d)
+			}
+		}
+		seen := map[int]bool{}
+		for _, rk := range ranks {
+			if rk >= 0 && rk < n && !seen[rk] {
+				seen[rk] = true
+				memberIdx = append(memberIdx, order[rk])
+				rankOf[order[rk]] = rk
+			}
+		}
+		rep.Histogram["member:ranked"] += len(seen)
+	}
+	for _, i := range memberIdx {
 		d := s.Data[i]
 		a := queryAll(f, s.Key, [][]byte{d}, true)
 		rep.Count("member", fmt.Sprintf("m%x/%d/%d/%x", d, s.P, s.M, s.Key[:2]), true)
 		if a.err != "" || !a.single[0] || !a.zip || !a.hash || !a.any {
-			rep.Violate("C13:member:missed", "a member of the set is not reported by every query form",
-				s.replay(map[string]interface{}{"member": hex.EncodeToString(d), "Match": a.single, "ZipMatchAny": a.zip, "HashMatchAny": a.hash, "MatchAny": a.any, "error": a.err}))
+			extra := map[string]interface{}{"member": hex.EncodeToString(d), "member_index_in_set": i, "Match": a.single, "ZipMatchAny": a.zip, "HashMatchAny": a.hash, "MatchAny": a.any, "error": a.err, "filter_bytes": len(fb)}
+			if rk, ok := rankOf[i]; ok {
+				extra["member_rank_in_sorted_stream"] = rk
+			}
+			rep.Violate("C13:member:missed", "a member of the set is not reported by every query form", s.replay(extra))
 		}
 	}
 	// --- empty query matches nothing
@@ -471,13 +517,112 @@ func familyBig(rng *vh.RNG) {
 		list = append(list, cfgT{20000, 19, 784931}, cfgT{100000, 19, 784931}, cfgT{100000, 10, 1 << 10}, cfgT{50000, 25, 1<<25 + 77}, cfgT{70000, 5, 43})
 	}
 	for _, c := range list {
-		s := spec{P: c.p, M: c.m, Key: randKey(r)}
-		seed := r.U64()
-		s.Gen = fmt.Sprintf("N=%d items: LE64(x*0x9E3779B97F4A7C15 + %d) for x in 0..N-1", c.n, seed)
-		for i := 0; i < c.n; i++ {
-			s.Data = append(s.Data, gref.LE64(uint64(i)*0x9E3779B97F4A7C15+seed))
-		}
+		s := bigSpec(c.n, c.p, c.m, randKey(r), r.U64())
 		checkBuilt(s, queriesFor(r, s.Data, false), false, "big")
+	}
+	// Round 3: size classes of N and of the byte length.  N in [2^16, 2^17) (a 16-bit decode counter wraps; bit 16 of N
+	// set) at the default parameters in EVERY tier; thorough/search: the same binade at P = 32 (remainders of a full
+	// word; 420 kB, above 400000 bytes), N in [2^17, 2^18) and a filter above 1 MiB.  A separate stream so that the
+	// older configurations keep their inputs.
+	r2 := rng.Fork("big-r3")
+	list2 := []cfgT{{70000, 19, 784931}}
+	if cfg.Thorough() || cfg.Search {
+		list2 = append(list2, cfgT{100000, 32, 1 << 32}, cfgT{66000, 32, 1<<32 + 12345}, cfgT{140000, 19, 784931}, cfgT{400000, 19, 784931}, cfgT{131072, 1, 3}, cfgT{65536, 8, 1 << 8})
+	}
+	for _, c := range list2 {
+		s := bigSpec(c.n, c.p, c.m, randKey(r2), r2.U64())
+		checkBuilt(s, queriesFor(r2, s.Data, false), false, "big")
+	}
+}
+
+// bigSpec is a set too large to print, described by a formula (runReplay parses it back).
+func bigSpec(n int, p uint8, m uint64, key [16]byte, seed uint64) spec {
+	s := spec{P: p, M: m, Key: key}
+	s.Gen = fmt.Sprintf("N=%d items: LE64(x*0x9E3779B97F4A7C15 + %d) for x in 0..N-1", n, seed)
+	s.Data = make([][]byte, n)
+	for i := range s.Data {
+		s.Data[i] = gref.LE64(uint64(i)*0x9E3779B97F4A7C15 + seed)
+	}
+	return s
+}
+
+// parseBigSpec reconstructs the items of a bigSpec description.
+func parseBigSpec(g string) ([][]byte, bool) {
+	var n int
+	var seed uint64
+	if _, err := fmt.Sscanf(g, "N=%d items: LE64(x*0x9E3779B97F4A7C15 + %d) for x in 0..N-1", &n, &seed); err != nil || n < 0 || n > 1<<24 {
+		return nil, false
+	}
+	return bigSpec(n, 0, 0, [16]byte{}, seed).Data, true
+}
+
+// query lists whose LENGTH crosses 2^8 and 2^16 (255/256/257, 65535/65536/65537 items): a narrow cursor over the
+// queried items (range index in HashMatchAny, queryIndex over the sorted values in ZipMatchAny) wraps there.  The only
+// member of a list is put at the END of the list and is also the LAST of the sorted query values (every non-member
+// hashes below it), or first / in the middle; filters on both sides of the N/2 switch of MatchAny.
+func familyQuerySize(rng *vh.RNG) {
+	r := rng.Fork("querysize")
+	type qc struct {
+		n     int
+		p     uint8
+		m     uint64
+		sizes []int
+	}
+	small, large := []int{255, 256, 257}, []int{65535, 65536, 65537}
+	list := []qc{{12, 19, 784931, small}, {400, 19, 784931, small}, {3000, 19, 784931, small}, {600, 32, 1 << 32, small},
+		{40, 19, 784931, large}, {3000, 19, 784931, large}}
+	if cfg.Thorough() || cfg.Search {
+		// N/2 above 65537: MatchAny takes the zip route with the long lists
+		list = append(list, qc{140000, 19, 784931, large}, qc{2000, 32, 1 << 32, large}, qc{1, 10, 1 << 10, large}, qc{70000, 8, 300, append(append([]int{}, small...), 511, 512, 513, 32767, 32768, 32769)})
+	}
+	for _, c := range list {
+		s := bigSpec(c.n, c.p, c.m, randKey(r), r.U64())
+		F := gref.Modulus(uint64(c.n), c.m)
+		// the members with the largest and the smallest hashed value, and one in the middle
+		hi, lo := 0, 0
+		vals := make([]uint64, c.n)
+		for i, d := range s.Data {
+			vals[i] = gref.Value(s.Key, F, d)
+			if vals[i] > vals[hi] {
+				hi = i
+			}
+			if vals[i] < vals[lo] {
+				lo = i
+			}
+		}
+		inSet := map[uint64]bool{}
+		for _, v := range vals {
+			inSet[v] = true
+		}
+		nonBelow := func(k int, bound uint64) [][]byte { // k non-members hashing below bound (and not onto a member)
+			out := make([][]byte, 0, k)
+			for t := 0; len(out) < k && t < 40*k+1000; t++ {
+				it := append([]byte{0xEE}, r.Bytes(9)...)
+				if v := gref.Value(s.Key, F, it); v < bound && !inSet[v] {
+					out = append(out, it)
+				}
+			}
+			return out
+		}
+		var lists [][][]byte
+		for _, k := range c.sizes {
+			none := nonBelow(k, F)
+			lists = append(lists, none) // no member at all
+			if vals[hi] > uint64(k) {
+				last := append(nonBelow(k-1, vals[hi]), s.Data[hi]) // member last in the list AND last in sorted order
+				lists = append(lists, last)
+			}
+			end := append(append([][]byte{}, none[:k-1]...), s.Data[r.Intn(c.n)]) // member at the end of the list, any rank
+			first := append([][]byte{s.Data[lo]}, none[:k-1]...)                   // member first in both orders
+			mid := append([][]byte{}, none[:k-1]...)
+			mid = append(mid[:k/2], append([][]byte{s.Data[r.Intn(c.n)]}, mid[k/2:]...)...)
+			lists = append(lists, end, first, mid)
+			rep.Histogram[fmt.Sprintf("querysize:%d", k)] += 5
+		}
+		for _, l := range lists {
+			rep.Count("querysize", fmt.Sprintf("z%d/%d/%d/%x", c.n, c.p, len(l), l[len(l)-1]), true)
+		}
+		checkBuilt(s, lists, false, "querysize")
 	}
 }
 
@@ -849,6 +994,226 @@ func familyInterleave(rng *vh.RNG) {
 				checkBuilt(s, lists, false, "interleave")
 			}
 		}
+	}
+}
+
+// several filters ALIVE AT ONCE, of every size class (empty, a few hundred bytes, several kB, two above 64 KiB; thorough:
+// 420 kB and above 1 MiB), queried alternately and then from several goroutines at the same time (no -race needed: every
+// answer - Bytes(), N(), P(), Match, the three any-of forms - is compared with the per-filter reference).  Anything the
+// package keeps between calls or shares between filters (staging buffers, caches keyed by size or shape) shows here.
+type liveFilter struct {
+	s       spec
+	f       *gcs.Filter
+	ref     []byte // reference encoding of the set
+	members [][]byte
+	nons    [][]byte
+	nonRef  []bool
+	nonAny  bool
+}
+
+func (l *liveFilter) describe() map[string]interface{} {
+	return l.s.replay(map[string]interface{}{"filter_bytes": len(l.ref)})
+}
+
+// probe runs operation op (round-robin) on the filter and returns "" or a description of the disagreement.
+func (l *liveFilter) probe(op, k int) (string, map[string]interface{}) {
+	bad := func(what string, extra map[string]interface{}) (string, map[string]interface{}) { return what, extra }
+	var out string
+	var ex map[string]interface{}
+	if p, msg := vh.Catch(func() {
+		switch op % 6 {
+		case 0:
+			b, err := l.f.Bytes()
+			if err != nil || !bytesEq(b, l.ref) {
+				out, ex = bad("Bytes() differs from the reference encoding of this filter's set", map[string]interface{}{"impl_len": len(b), "reference_len": len(l.ref), "first_difference_at_byte": firstDiff(b, l.ref), "error": fmt.Sprint(err)})
+			}
+		case 1:
+			if len(l.members) == 0 {
+				return
+			}
+			m := l.members[k%len(l.members)]
+			if ok, err := l.f.Match(l.s.Key, m); !ok || err != nil {
+				out, ex = bad("Match misses a member", map[string]interface{}{"member": hex.EncodeToString(m), "error": fmt.Sprint(err)})
+			}
+		case 2:
+			if len(l.nons) == 0 {
+				return
+			}
+			j := k % len(l.nons)
+			if ok, err := l.f.Match(l.s.Key, l.nons[j]); ok != l.nonRef[j] || err != nil {
+				out, ex = bad("Match disagrees with the reference on a non-member", map[string]interface{}{"query": hex.EncodeToString(l.nons[j]), "Match": ok, "reference": l.nonRef[j], "error": fmt.Sprint(err)})
+			}
+		case 3:
+			if len(l.members) == 0 {
+				return
+			}
+			qs := append(append([][]byte{}, l.nons...), l.members[k%len(l.members)])
+			z, e1 := l.f.ZipMatchAny(l.s.Key, qs)
+			h, e2 := l.f.HashMatchAny(l.s.Key, qs)
+			a, e3 := l.f.MatchAny(l.s.Key, qs)
+			if !z || !h || !a || e1 != nil || e2 != nil || e3 != nil {
+				out, ex = bad("an any-of form misses a list that ends with a member", map[string]interface{}{"queries": trimQ(qs), "ZipMatchAny": z, "HashMatchAny": h, "MatchAny": a})
+			}
+		case 4:
+			z, e1 := l.f.ZipMatchAny(l.s.Key, l.nons)
+			h, e2 := l.f.HashMatchAny(l.s.Key, l.nons)
+			a, e3 := l.f.MatchAny(l.s.Key, l.nons)
+			if z != l.nonAny || h != l.nonAny || a != l.nonAny || e1 != nil || e2 != nil || e3 != nil {
+				out, ex = bad("an any-of form disagrees with the reference on a list of non-members", map[string]interface{}{"queries": trimQ(l.nons), "reference": l.nonAny, "ZipMatchAny": z, "HashMatchAny": h, "MatchAny": a})
+			}
+		default:
+			if int(l.f.N()) != len(l.s.Data) || l.f.P() != l.s.P {
+				out, ex = bad("N() / P() changed", map[string]interface{}{"N": l.f.N(), "P": l.f.P()})
+			}
+		}
+	}); p {
+		return "panic: " + msg, map[string]interface{}{}
+	}
+	return out, ex
+}
+
+func bytesEq(a, b []byte) bool { return len(a) == len(b) && firstDiff(a, b) < 0 }
+
+func firstDiff(a, b []byte) int {
+	for i := 0; i < len(a) && i < len(b); i++ {
+		if a[i] != b[i] {
+			return i
+		}
+	}
+	if len(a) != len(b) {
+		if len(a) < len(b) {
+			return len(a)
+		}
+		return len(b)
+	}
+	return -1
+}
+
+var opNames = []string{"Bytes", "Match(member)", "Match(non-member)", "Zip/Hash/MatchAny(non-members + member)", "Zip/Hash/MatchAny(non-members)", "N/P"}
+
+func familyShared(rng *vh.RNG) {
+	r := rng.Fork("shared")
+	type fc struct {
+		n int
+		p uint8
+		m uint64
+	}
+	list := []fc{{30000, 19, 784931}, {300, 19, 784931}, {26000, 19, 784931}, {0, 19, 784931}, {2000, 32, 1 << 32}, {30000, 19, 784931}, {7, 5, 40}}
+	if cfg.Thorough() || cfg.Search {
+		list = append(list, fc{400000, 19, 784931}, fc{100000, 32, 1 << 32}, fc{400000, 19, 784931})
+	}
+	var live []*liveFilter
+	var alive []interface{}
+	for _, c := range list {
+		l := &liveFilter{s: bigSpec(c.n, c.p, c.m, randKey(r), r.U64())}
+		var err error
+		if l.f, err = gcs.BuildGCSFilter(c.p, c.m, l.s.Key, l.s.Data); err != nil {
+			rep.Violate("C13:build:error", "BuildGCSFilter failed on admissible parameters", l.s.replay(map[string]interface{}{"error": err.Error()}))
+			continue
+		}
+		F := gref.Modulus(uint64(c.n), c.m)
+		vals := make([]uint64, c.n)
+		inSet := map[uint64]bool{}
+		order := make([]int, c.n)
+		for i, d := range l.s.Data {
+			vals[i] = gref.Value(l.s.Key, F, d)
+			inSet[vals[i]] = true
+			order[i] = i
+		}
+		sort.Slice(order, func(a, b int) bool { return vals[order[a]] < vals[order[b]] })
+		sorted := make([]uint64, c.n)
+		for i, o := range order {
+			sorted[i] = vals[o]
+		}
+		l.ref = gref.Pack(gref.EncodeBits(uint(c.p), sorted))
+		// members: mostly of low rank (cheap: the decode stops early, so the time goes into the private copy every
+		// query starts with), the last two codewords, one in the middle
+		for _, rk := range []int{0, 1, 2, 3, 5, 8, 13, 21, c.n / 2, c.n - 2, c.n - 1} {
+			if rk >= 0 && rk < c.n {
+				l.members = append(l.members, l.s.Data[order[rk]])
+			}
+		}
+		for k := 0; k < 6; k++ {
+			it := append([]byte{0xEE}, r.Bytes(9)...)
+			ref := inSet[gref.Value(l.s.Key, F, it)]
+			l.nons, l.nonRef = append(l.nons, it), append(l.nonRef, ref)
+			l.nonAny = l.nonAny || ref
+		}
+		live = append(live, l)
+		alive = append(alive, l.describe())
+		rep.Count("shared:filter", fmt.Sprintf("sf%d/%d/%x", c.n, c.p, l.s.Key[:4]), c.n > 0)
+		switch {
+		case len(l.ref) >= 1<<20:
+			rep.Histogram["shared:bytes>=1MiB"]++
+		case len(l.ref) >= 64<<10:
+			rep.Histogram["shared:bytes>=64KiB"]++
+		default:
+			rep.Histogram["shared:bytes<64KiB"]++
+		}
+	}
+	violate := func(key, mode string, fi, op int, what string, ex map[string]interface{}) {
+		rp := map[string]interface{}{"sequence": "stateful: all filters below are alive at once; re-run the family with the recorded seed (bin/check --replay does)",
+			"mode": mode, "filters_alive": alive, "filter": fi, "operation": opNames[op%6]}
+		for k, v := range ex {
+			rp[k] = v
+		}
+		rep.Violate(key, "with several filters alive, "+what, rp)
+	}
+	// (1) alternately, one goroutine: A B C ... A B C ..., every operation on every filter, three passes
+	for pass := 0; pass < 3; pass++ {
+		for op := 0; op < 6; op++ {
+			for fi, l := range live {
+				for k := 0; k < 3; k++ {
+					rep.Count("shared:sequential", "", false)
+					if what, ex := l.probe(op, pass*3+k+8*(k%2)); what != "" {
+						violate("C13:shared:sequential", fmt.Sprintf("alternating calls from one goroutine, pass %d", pass), fi, op, what, ex)
+					}
+				}
+			}
+		}
+	}
+	// (2) the same from several goroutines at once, each walking the filters in its own order
+	workers, iters := 8, cfg.Scale(60, 250)
+	var mu sync.Mutex
+	var wg sync.WaitGroup
+	stop := false
+	total := 0
+	for w := 0; w < workers; w++ {
+		wg.Add(1)
+		go func(w int) {
+			defer wg.Done()
+			count := 0
+			for it := 0; it < iters; it++ {
+				for j := range live {
+					fi := (j*(2*w+1) + w) % len(live)
+					op := it + j + w
+					if op%6 >= 3 && op%6 <= 4 && it%4 != 0 {
+						op = it % 3 // the any-of forms decode the whole filter: every fourth round only
+					}
+					what, ex := live[fi].probe(op, it+w)
+					count++
+					if what != "" {
+						mu.Lock()
+						violate("C13:shared:concurrent", fmt.Sprintf("%d goroutines querying at the same time (nothing is written by the caller)", workers), fi, op, what, ex)
+						stop = true
+						mu.Unlock()
+					}
+				}
+				mu.Lock()
+				s := stop
+				mu.Unlock()
+				if s {
+					break
+				}
+			}
+			mu.Lock()
+			total += count
+			mu.Unlock()
+		}(w)
+	}
+	wg.Wait()
+	for i := 0; i < total; i++ {
+		rep.Count("shared:concurrent", "", false)
 	}
 }
 
@@ -1230,6 +1595,81 @@ func firstLine(b []byte) string {
 	return s
 }
 
+// ---------- the production build configuration (child process built without the verif tag) ----------
+// The harness is built with -tags verif (the add-only hook files need it); the library is used without.  A file
+// constrained by `!verif` - or anything else that differs between the two configurations - is invisible to every
+// monitor above.  cmd/c13/prod is a public-API-only monitor program; it is built here, at run time, with the same
+// module configuration but WITHOUT the tag, and its findings are merged into this report.
+func familyProd(rng *vh.RNG) {
+	wd, _ := os.Getwd()
+	if _, err := os.Stat(filepath.Join(wd, "cmd", "c13", "prod", "main.go")); err != nil {
+		rep.Extra["prod_configuration"] = "skipped: not run from the harness directory (bin/check runs it there)"
+		return
+	}
+	if strings.Contains(os.Getenv("GOFLAGS"), "-tags") {
+		rep.Extra["prod_configuration"] = "skipped: GOFLAGS sets build tags"
+		return
+	}
+	bin := filepath.Join(cfg.Out, "c13prod")
+	run := func(limit time.Duration, name string, args ...string) ([]byte, error) {
+		cmd := exec.Command(name, args...)
+		done := make(chan struct{})
+		var outb []byte
+		var err error
+		go func() { outb, err = cmd.CombinedOutput(); close(done) }()
+		select {
+		case <-done:
+		case <-time.After(limit):
+			if cmd.Process != nil {
+				cmd.Process.Kill()
+			}
+			<-done
+			err = fmt.Errorf("timeout after %v", limit)
+		}
+		return outb, err
+	}
+	t0 := time.Now()
+	if outb, err := run(600*time.Second, "go", "build", "-o", bin, "./cmd/c13/prod"); err != nil {
+		rep.Violate("C13:prod:build", "the gcs package (or the public-API monitor program) does not build in the production configuration, i.e. without the verif tag",
+			map[string]interface{}{"build_configuration": "production (no verif tag)", "command": "go build ./cmd/c13/prod (in /verif/harness)", "error": err.Error(), "output": firstLine(outb)})
+		return
+	}
+	tier := "quick"
+	if cfg.Thorough() || cfg.Search {
+		tier = "thorough"
+	}
+	outb, err := run(900*time.Second, bin, strconv.FormatUint(cfg.Seed, 10), tier)
+	var po struct {
+		WithVerifTag bool           `json:"with_verif_tag"`
+		Executions   int            `json:"executions"`
+		Filters      int            `json:"filters"`
+		Histogram    map[string]int `json:"histogram"`
+		Violations   []struct {
+			Key    string                 `json:"key"`
+			What   string                 `json:"what"`
+			Replay map[string]interface{} `json:"replay"`
+		} `json:"violations"`
+	}
+	if err != nil || json.Unmarshal(lastLine(outb), &po) != nil {
+		rep.Violate("C13:prod:run", "the public-API monitor program built in the production configuration (no verif tag) died",
+			map[string]interface{}{"build_configuration": "production (no verif tag)", "error": fmt.Sprint(err), "output": firstLine(outb)})
+		return
+	}
+	rep.Extra["prod_configuration"] = map[string]interface{}{"with_verif_tag": po.WithVerifTag, "filters": po.Filters, "executions": po.Executions, "seconds": int(time.Since(t0).Seconds())}
+	for i := 0; i < po.Executions; i++ {
+		rep.Count("prod", "", false)
+	}
+	for i := 0; i < po.Filters; i++ {
+		rep.Count("prod:filter", fmt.Sprintf("pf%d", i), true)
+	}
+	for k, v := range po.Histogram {
+		rep.Histogram[k] += v
+	}
+	for _, v := range po.Violations {
+		rep.Violate(v.Key, v.What+" [production build configuration: no verif tag]", v.Replay)
+	}
+}
+
 // ---------- replay ----------
 func runReplay(path string) {
 	raw, err := os.ReadFile(path)
@@ -1241,6 +1681,10 @@ func runReplay(path string) {
 	in := doc.Input
 	if _, ok := in["nbytes"]; ok { // allocation probe
 		familyAlloc(vh.NewRNG(cfg.Seed))
+		return
+	}
+	if _, ok := in["build_configuration"]; ok { // found by the program built without the verif tag
+		familyProd(vh.NewRNG(cfg.Seed))
 		return
 	}
 	s := spec{}
@@ -1262,9 +1706,17 @@ func runReplay(path string) {
 	} else if g, ok := in["set"].(string); ok && strings.HasPrefix(g, "LE64(0..") {
 		hi, _ := strconv.Atoi(strings.TrimSuffix(strings.TrimPrefix(g, "LE64(0.."), ")"))
 		s.Data, s.Gen = le64Range(hi+1), g
-	} else {
-		// generated big sets: re-run the families with the recorded seed
+	} else if d, ok2 := parseBigSpec(fmt.Sprint(in["set"])); ok2 {
+		s.Data, s.Gen = d, fmt.Sprint(in["set"])
+	}
+	_, long := in["queries"].(map[string]interface{}) // a query list too long to print: re-run the families
+	_, stateful := in["sequence"]
+	if s.Data == nil && in["items"] == nil || long || stateful {
+		// generated big sets / stateful sequences: re-run the families with the recorded seed
 		rng := vh.NewRNG(cfg.Seed)
+		familyQuerySize(rng)
+		familyShared(rng)
+		familyProd(rng)
 		familyBig(rng)
 		familyCollision(rng)
 		familyLongRun(rng)
@@ -1303,21 +1755,31 @@ func main() {
 	if cfg.Replay != "" {
 		runReplay(cfg.Replay)
 	} else {
-		familySmall(rng)
-		familyZero(rng)
-		familyBig(rng)
-		familyCollision(rng)
-		familyAlloc(rng)
-		familyLongRun(rng)
-		familyCodeword(rng)
-		familyInterleave(rng)
-		familyReuse(rng)
-		familyReduceWrap(rng)
-		if !cfg.Search {
-			familyHostile(rng)
-			familyTruncated(rng)
-			familyPrimitives(rng)
+		secs := map[string]float64{}
+		timed := func(name string, f func(*vh.RNG)) {
+			t0 := time.Now()
+			f(rng)
+			secs[name] = float64(int(time.Since(t0).Seconds()*10)) / 10
 		}
+		timed("small", familySmall)
+		timed("zero", familyZero)
+		timed("big", familyBig)
+		timed("querysize", familyQuerySize)
+		timed("shared", familyShared)
+		timed("prod", familyProd)
+		timed("collision", familyCollision)
+		timed("alloc", familyAlloc)
+		timed("longrun", familyLongRun)
+		timed("codeword", familyCodeword)
+		timed("interleave", familyInterleave)
+		timed("reuse", familyReuse)
+		timed("reducewrap", familyReduceWrap)
+		if !cfg.Search {
+			timed("hostile", familyHostile)
+			timed("truncated", familyTruncated)
+			timed("primitives", familyPrimitives)
+		}
+		rep.Extra["family_seconds"] = secs
 	}
 	rep.Cases = cases.Len()
 	rep.Extra["duplicate_cases_dropped"] = cases.Dups
